@@ -35,3 +35,8 @@ def run(ctx) -> None:
     from ..models import make_interp as _mk
     from ..streamshapes import end_to_end
     end_to_end(ctx, _mk(ctx.p), "C04", "C04.Z.found-where-the-property-says", "C04.Z.not-found-elsewhere")
+    # W: the canonical witness listing of every skeleton is found, first character to last (stream templates)
+    from ..models import make_interp as _mkw
+    from ..streamshapes import witnesses
+    if ctx.tier == "thorough" or ('not',):
+        witnesses(ctx, _mkw(ctx.p), "C04.W.canonical-witness-is-found", tags=('not',) if ctx.tier != "thorough" or "C04" != "C07" else ())
